@@ -454,6 +454,8 @@ def gen_plan(rng, tier):
         # "time zones are ignored": inputs that carry a tzinfo must be treated by
         # their wall-clock fields, whatever the zone of the process
         plan["aware"] = rng.choice([0, 120, -300, 330, 765])
+    elif rng.random() < 0.04:
+        plan["fold"] = 1
     if tier == "thorough" and rng.random() < 0.003:
         plan["subprocess_crosscheck"] = True
     return plan
@@ -475,10 +477,13 @@ def _mk_scale(which):
 
 
 _AWARE = None  # minutes east of UTC attached to every input datetime of this execution, or None
+_FOLD = False  # every input datetime carries fold=1
 
 
 def _in(iso):
     d = iso2dt(iso)
+    if _FOLD:
+        d = d.replace(fold=1)  # legal on naive values (PEP 495); must make no difference
     if _AWARE is not None:
         d = d.replace(tzinfo=datetime.timezone(datetime.timedelta(minutes=_AWARE)))
     return d
@@ -687,8 +692,9 @@ def execute_under(arg):
     plan, tz = arg["plan"], arg["tz"]
     if not arg.get("keep_stdout"):
         seams.silence_stdio()
-    global _AWARE
+    global _AWARE, _FOLD
     _AWARE = plan.get("aware")
+    _FOLD = bool(plan.get("fold"))
     seams.set_tz(tz)
     # import-time state of the library must be computed under this zone, as it
     # would be in a process started with TZ in its environment
